@@ -1,6 +1,11 @@
 import IbModel.Proofs.CombinersBasic
 import IbModel.Proofs.CombinersDistinct
 import IbModel.Proofs.CombinersTopK
+import IbModel.Proofs.CombinersOrd
+import IbModel.Proofs.CombinersFloat
+import IbModel.Proofs.CombinersTopKKey
+import IbModel.Proofs.CombinersKMV
+import IbModel.Proofs.CombBridge
 /-!
 # C06 — built-in combiners are mergeable: any split and merge order equals the fold
 
@@ -14,9 +19,24 @@ Property theorems only (helper lemmas are in `Proofs/Combiner*.lean`).
 * Part 2 — each built-in is `Mergeable` (hence `LawfulCombiner`, which C05/C01 consume).
 * Part 3 — the outputs are the mathematical ones, for every tree.
 
+* Part 4 (round 3) — `Min` / `Max` / `TopK` for ANY `T: Ord`, including element types whose `Ord` ignores part
+  of the value (ties between distinguishable values): the code's tie rule per entry point, what holds on the
+  nose (partition order), what holds up to `Ord`-equality (any order), and the one clause that fails on the
+  nose (`Max::build_from_group` returns the LAST of equal maxima, `add_input` keeps the first) with its
+  witness. The property ("the mathematical maximum") is not affected: `Ord`-equal values are equal as far as
+  `Ord` — hence `==` of a lawful `Eq` — can tell; which representative is returned is not part of it.
+* Part 5 (round 3) — IEEE doubles: `OrdF64`'s order (`total_cmp`) is a total order on bit patterns, with the
+  place of NaNs and infinities; the class (finite / +inf / -inf / NaN) of `Sum<f64>` / `AverageF64` results for
+  every merge tree, over an abstract float whose classification is a homomorphism into the IEEE class table.
+* Part 6 (round 3) — the pipeline model's `Val`-level built-ins (`Model/Program.lean`) are encodings of the typed
+  models above: their lawfulness (what C05 / C01 consume) is DERIVED from Part 2 / Part 4.
+* Part 7 (round 3) — KMV (`KMVApproxDistinctCount`, named in C06's anchors; theory in C15) on C06's merge trees,
+  `build_from_group` and values added after merges included.
+
 Scope: `u64`/`i64` are `Nat`/`Int` (no overflow); `f64` is `Rat` (`Sum<f64>`, `AverageF64`: exact
 arithmetic — the real code agrees only up to IEEE rounding, which the correspondence check compares with
-1e-9 tolerance). `Min`/`Max` output `none` = the real `finish` panics (`expect` on an empty accumulator).
+1e-9 tolerance; the round-3 float requests compare bit patterns with Lean's `Float`, about which nothing is
+proved). `Min`/`Max` output `none` = the real `finish` panics (`expect` on an empty accumulator).
 -/
 namespace IB.Combiners
 open IB
@@ -254,6 +274,315 @@ theorem distinct_acc_spec {α : Type} [DecidableEq α] (t : MergeTree α) :
   have p : (t.eval (distinctCount α)).Perm (setCollect t.leaves) := (distinctCount_mergeable α).eval_fold t
   exact ⟨p.nodup_iff.mpr (nodup_setCollect _), fun x => p.mem_iff.trans mem_setCollect⟩
 
+
+/-! ## Part 4 — `Min` / `Max` / `TopK` for any `T: Ord` (ties between distinguishable values) -/
+
+section AnyOrd
+variable {α : Type} {lt : α → α → Bool}
+
+/-- `Min<T>`, any `Ord` (a strict weak order: `Equal` need not mean identical): lawful ON THE NOSE in the sense
+    the engine needs (parts merged in partition order): split + merge = fold, `build_from_group` = fold.
+    The returned representative is the FIRST minimal value. -/
+theorem min_any_ord_lawful (h : StrictWeakB lt) : LawfulCombiner (minBy lt) Eq := minBy_lawful h
+
+/-- … hence every merge tree (any grouping, any build mode, values added after merges) whose leaves are in
+    input order holds exactly the accumulator of the plain fold -/
+theorem min_any_ord_in_order (h : StrictWeakB lt) (t : MergeTree α) :
+    t.eval (minBy lt) = (minBy lt).foldAdd (minBy lt).create t.leaves :=
+  LawfulCombiner.eval_fold_eq (minBy_lawful h) t
+
+/-- `Max<T>`: the same with the trait's default `build_from_group` (the `add_input` loop) … -/
+theorem max_any_ord_lawful_partial (h : StrictWeakB lt) : LawfulCombiner (maxByDefault lt) Eq :=
+  maxByDefault_lawful h
+
+/-- … and with the real `build_from_group = iter().max()` whenever `Equal` means identical (`i64`, `OrdF64`, …) -/
+theorem max_total_ord_lawful (h : StrictWeakB lt) (anti : ∀ a b, Equiv lt a b → a = b) :
+    LawfulCombiner (maxBy lt) Eq := maxBy_lawful h anti
+
+/-- FULL statement that FAILS: `LawfulCombiner (maxBy lt) Eq` for every `Ord`. Witness: two `Equal` values with
+    different tags: `build_from_group` (= `iter().max()`) returns the last one, the `add_input` loop the first. -/
+theorem max_build_tie_witness : ¬ LawfulCombiner (maxBy ltKey) Eq := by
+  intro h
+  have := h.build_fold [((1 : Int), 0), (1, 1)]
+  revert this
+  decide
+
+/-- … but the two are `Ord`-equal, for every group -/
+theorem max_build_equiv_fold (h : StrictWeakB lt) (xs : List α) :
+    OptEquiv lt ((maxBy lt).build xs) ((maxBy lt).foldAdd (maxBy lt).create xs) := maxBy_build_equiv_fold h xs
+
+/-- `Min<T>` / `Max<T>`, any `Ord`, ANY ORDER of the parts: mergeable up to `Ord`-equality of the accumulators;
+    every observation `key` that does not look beyond `Ord` gives equal outputs -/
+theorem min_any_ord_mergeable (h : StrictWeakB lt) {κ : Type} (key : α → κ)
+    (hkey : ∀ a b, Equiv lt a b → key a = key b) :
+    Mergeable ((minBy lt).mapFinish (Option.map key)) (OptEquiv lt) := minBy_mergeable_equiv h key hkey
+
+theorem max_any_ord_mergeable (h : StrictWeakB lt) {κ : Type} (key : α → κ)
+    (hkey : ∀ a b, Equiv lt a b → key a = key b) :
+    Mergeable ((maxBy lt).mapFinish (Option.map key)) (OptEquiv lt) := maxBy_mergeable_equiv h key hkey
+
+/-- the property as worded, for `Min`: any split, any order, any grouping, any build mode — an `Ord`-equal result -/
+theorem min_tree_any_order (h : StrictWeakB lt) (t : MergeTree α) (xs : List α) (p : t.leaves.Perm xs) :
+    OptEquiv lt ((minBy lt).finish (t.eval (minBy lt))) ((minBy lt).finish ((minBy lt).foldAdd (minBy lt).create xs)) := by
+  have hm := minBy_mergeable_equiv h (fun (_ : α) => ()) (fun _ _ _ => rfl)
+  have e := hm.trans (hm.eval_fold t) (hm.fold_perm p)
+  rw [eval_mapFinish] at e
+  exact e
+
+theorem max_tree_any_order (h : StrictWeakB lt) (t : MergeTree α) (xs : List α) (p : t.leaves.Perm xs) :
+    OptEquiv lt ((maxBy lt).finish (t.eval (maxBy lt))) ((maxBy lt).finish ((maxBy lt).foldAdd (maxBy lt).create xs)) := by
+  have hm := maxBy_mergeable_equiv h (fun (_ : α) => ()) (fun _ _ _ => rfl)
+  have e := hm.trans (hm.eval_fold t) (hm.fold_perm p)
+  rw [eval_mapFinish] at e
+  exact e
+
+/-- the outputs are the mathematical ones: a value of the input below (above) which there is none; `none`
+    (the real `finish` panics) exactly on no values at all -/
+theorem min_is_minimum (h : StrictWeakB lt) (t : MergeTree α) :
+    IsMinOf lt t.leaves ((minBy lt).finish (t.eval (minBy lt))) := minBy_tree_isMin h t
+
+theorem max_is_maximum (h : StrictWeakB lt) (t : MergeTree α) :
+    IsMaxOf lt t.leaves ((maxBy lt).finish (t.eval (maxBy lt))) := maxBy_tree_isMax h t
+
+/-- total orders: everything on the nose, any order (the round-1 `i64` theorems are the instance `lt = <`) -/
+theorem min_total_ord_mergeable (h : StrictWeakB lt) (anti : ∀ a b, Equiv lt a b → a = b) :
+    Mergeable (minBy lt) Eq := minBy_mergeable_total h anti
+theorem max_total_ord_mergeable (h : StrictWeakB lt) (anti : ∀ a b, Equiv lt a b → a = b) :
+    Mergeable (maxBy lt) Eq := maxBy_mergeable_total h anti
+
+end AnyOrd
+
+/-- the round-1 models of `Min<i64>` / `Max<i64>` are the generic ones -/
+theorem minC_is_minBy : minC = minBy (fun a b : Int => decide (a < b)) := minC_eq_minBy
+theorem maxC_is_maxBy : maxC = maxBy (fun a b : Int => decide (a < b)) := maxC_eq_maxBy
+
+/-- `TopK<T>` when `Ord` only looks at `key` (a total order `leκ` on the keys): the keys of the output are the `k`
+    largest keys in descending order — every tree, every `k` … -/
+theorem topKBy_keys_spec {α κ : Type} {le : α → α → Bool} {leκ : κ → κ → Bool} {key : α → κ}
+    (hκ : TotalOrderB leκ) (hle : ∀ a b, le a b = leκ (key a) (key b)) (k : Nat) (t : MergeTree α) :
+    ((topKBy le k).finish (t.eval (topKBy le k))).map key
+      = ((t.leaves.map key).mergeSort (fun a b => leκ b a)).take k := by
+  show (topFinish (t.eval (topKBy le k))).map key = _
+  rw [topFinish, List.map_reverse, topKBy_eval_map hle k t]
+  have := topKBy_spec hκ k (t.map key)
+  rw [MergeTree.leaves_map] at this
+  exact this
+
+/-- … and the output is a selection (sub-multiset) of the input, whatever `Ord` is: which of several `Equal`
+    values at the `k`-th place is kept is decided by the heap, never anything that was not put in -/
+theorem topKBy_selection {α : Type} (le : α → α → Bool) (k : Nat) (t : MergeTree α) :
+    Sel ((topKBy le k).finish (t.eval (topKBy le k))) t.leaves :=
+  (Sel.of_perm (List.reverse_perm _)).trans (topKBy_eval_sel le k t)
+
+/-- the harness's `Tagged { key, tag }` -/
+theorem topK_tagged_spec (k : Nat) (t : MergeTree Tagged) :
+    ((topKBy leKey k).finish (t.eval (topKBy leKey k))).map (·.1)
+      = ((t.leaves.map (·.1)).mergeSort (fun a b => decide (a ≥ b))).take k :=
+  topKBy_keys_spec leInt_total leKey_hom k t
+
+/-! ## Part 5 — IEEE doubles -/
+
+/-- `OrdF64` (`f64::total_cmp` on bit patterns) is a total order: `Min/Max/TopK<OrdF64>` are instances of the
+    total-order theorems — on the nose, any order, NaNs included -/
+theorem ordF64_total_order : TotalOrderB leF64 ∧ StrictWeakB ltF64 ∧ (∀ a b, Equiv ltF64 a b → a = b) ∧
+    ∀ a b, leF64 a b = !ltF64 b a :=
+  ⟨leF64_total, ltF64_strictWeak, ltF64_anti, leF64_eq_not_lt⟩
+
+/-- where everything sits: every negative-sign pattern is below every non-negative one (`-0.0 < +0.0`);
+    among non-negative patterns the order is the order of the bits (finite < `+inf` = `0x7FF0…0` < the NaNs);
+    among negative ones it is reversed (negative NaNs < `-inf` < negative finite) -/
+theorem ordF64_order (a b : UInt64) :
+    (two63 ≤ a.toNat → b.toNat < two63 → ltF64 a b = true) ∧
+    (a.toNat < two63 → b.toNat < two63 → (ltF64 a b = true ↔ a.toNat < b.toNat)) ∧
+    (two63 ≤ a.toNat → two63 ≤ b.toNat → (ltF64 a b = true ↔ b.toNat < a.toNat)) := by
+  have ha := a.toNat_lt
+  have hb := b.toNat_lt
+  simp only [ltF64, decide_eq_true_eq]
+  rcases ordKey_cases a with ⟨ha1, ha2⟩ | ⟨ha1, ha2⟩ <;> rcases ordKey_cases b with ⟨hb1, hb2⟩ | ⟨hb1, hb2⟩ <;>
+    rw [ha2, hb2] <;> unfold two63 at * <;> refine ⟨?_, ?_, ?_⟩ <;> intro h1 h2 <;> omega
+
+theorem minF64_mergeable : Mergeable (minBy ltF64) Eq := minBy_mergeable_total ltF64_strictWeak ltF64_anti
+theorem maxF64_mergeable : Mergeable (maxBy ltF64) Eq := maxBy_mergeable_total ltF64_strictWeak ltF64_anti
+theorem topKF64_spec (k : Nat) (t : MergeTree UInt64) :
+    (topKBy leF64 k).finish (t.eval (topKBy leF64 k)) = (t.leaves.mergeSort (fun a b => leF64 b a)).take k :=
+  topKBy_spec leF64_total k t
+
+/-- a non-negative-sign NaN: exponent all ones, mantissa non-zero -/
+def isPosNaN (b : UInt64) : Prop := 0x7FF0000000000000 < b.toNat ∧ b.toNat < two63
+def posInfBits : UInt64 := 0x7FF0000000000000
+
+/-- the NaN-vs-inf rule of `Max<OrdF64>`: a positive NaN among the values ⇒ the maximum is a positive NaN
+    (`total_cmp` puts them above `+inf`) -/
+theorem maxF64_nan_rule (t : MergeTree UInt64) (x : UInt64) (hx : x ∈ t.leaves) (hn : isPosNaN x) :
+    ∃ m, (maxBy ltF64).finish (t.eval (maxBy ltF64)) = some m ∧ isPosNaN m := by
+  have h := maxBy_tree_isMax ltF64_strictWeak t
+  show ∃ m, t.eval (maxBy ltF64) = some m ∧ isPosNaN m
+  cases hm : t.eval (maxBy ltF64) with
+  | none => rw [hm] at h; simp only [IsMaxOf] at h; rw [h] at hx; exact absurd hx (by simp)
+  | some m =>
+    rw [hm] at h
+    refine ⟨m, rfl, ?_⟩
+    have hle := h.2 x hx
+    have hmlt := m.toNat_lt
+    simp only [ltF64, decide_eq_false_iff_not] at hle
+    unfold isPosNaN at *
+    rcases ordKey_cases m with ⟨hm1, hm2⟩ | ⟨hm1, hm2⟩ <;> rcases ordKey_cases x with ⟨hx1, hx2⟩ | ⟨hx1, hx2⟩ <;>
+      rw [hm2, hx2] at hle <;> unfold two63 at * <;> omega
+
+/-- … no positive NaN but `+inf` among them ⇒ the maximum is `+inf` -/
+theorem maxF64_inf_rule (t : MergeTree UInt64) (hinf : posInfBits ∈ t.leaves) (hnn : ∀ x ∈ t.leaves, ¬ isPosNaN x) :
+    (maxBy ltF64).finish (t.eval (maxBy ltF64)) = some posInfBits := by
+  have h := maxBy_tree_isMax ltF64_strictWeak t
+  show t.eval (maxBy ltF64) = some posInfBits
+  cases hm : t.eval (maxBy ltF64) with
+  | none => rw [hm] at h; simp only [IsMaxOf] at h; rw [h] at hinf; exact absurd hinf (by simp)
+  | some m =>
+    rw [hm] at h
+    congr 1
+    have hle := h.2 posInfBits hinf
+    have hnot := hnn m h.1
+    have hmlt := m.toNat_lt
+    apply UInt64.toNat_inj.mp
+    have hp : posInfBits.toNat = 0x7FF0000000000000 := by decide
+    simp only [ltF64, decide_eq_false_iff_not] at hle
+    unfold isPosNaN at hnot
+    rw [hp]
+    rcases ordKey_cases m with ⟨hm1, hm2⟩ | ⟨hm1, hm2⟩ <;>
+      rcases ordKey_cases posInfBits with ⟨hx1, hx2⟩ | ⟨hx1, hx2⟩ <;>
+      rw [hm2, hx2, hp] at hle <;> rw [hp] at hx1 <;> unfold two63 at * <;> omega
+
+/-- `Sum<f64>`: the class of the result of EVERY merge tree, for any number type `N` whose classification `cls` is a
+    homomorphism into the IEEE class table (`f64`, as long as no addition of finite values overflows): NaN iff a
+    NaN or both infinities are among the values, else the infinity that is, else finite -/
+theorem sum_class_spec {α : Type} {N : NumOps α} {cls : α → FClass} (h : NumHom N classOps cls) (t : MergeTree α) :
+    cls ((sumG N).finish (t.eval (sumG N))) = sumClass (t.leaves.map cls) := by
+  show cls (t.eval (sumG N)) = _
+  rw [sumG_eval_hom h t]
+  have e := mergeTree_eq_fold (sumG_mergeable classOps classOps_lawful) (t.map cls)
+  show (sumG classOps).finish ((t.map cls).eval (sumG classOps)) = _
+  rw [e, MergeTree.leaves_map]
+  exact foldl_classAdd_fin _
+
+/-- `AverageF64`: finite (`0.0`) on no values; otherwise the class of the sum (`x / n` keeps the class) -/
+theorem average_class_spec {α : Type} {N : NumOps α} {cls : α → FClass} (h : NumHom N classOps cls) (t : MergeTree α) :
+    cls ((averageG N).finish (t.eval (averageG N))) =
+      if t.leaves.length = 0 then FClass.fin else sumClass (t.leaves.map cls) := by
+  have hc := averageG_eval_count N t
+  have hh := averageG_eval_hom h t
+  show cls (if (t.eval (averageG N)).2 == 0 then N.zero else N.divNat (t.eval (averageG N)).1 (t.eval (averageG N)).2) = _
+  rw [hc]
+  by_cases h0 : t.leaves.length = 0
+  · simp only [h0, beq_self_eq_true, if_true]; exact h.zero
+  · have hpos : 0 < t.leaves.length := Nat.pos_of_ne_zero h0
+    simp only [h0, if_false, beq_iff_eq]
+    rw [h.div _ _ hpos]
+    show cls (t.eval (averageG N)).1 = _
+    have e1 : cls (t.eval (averageG N)).1 = ((t.map cls).eval (averageG classOps)).1 := congrArg Prod.fst hh
+    rw [e1]
+    have e := (averageG_mergeable classOps classOps_lawful).eval_fold (t.map cls)
+    rw [e, MergeTree.leaves_map]
+    show ((averageG classOps).foldAdd (FClass.fin, 0) (t.leaves.map cls)).1 = _
+    rw [averageG_foldAdd]
+    exact foldl_classAdd_fin _
+
+/-! ## Part 6 — the pipeline model's built-ins are these combiners (what C05 / C01 consume) -/
+
+/-- `Comb.toCombiner` (`Model/Program.lean`) of every built-in is a `Val`-encoding of the typed model of this file
+    (`TopK`: by definition, `Proofs/CombTransfer.lean`) -/
+theorem val_builtins_are_encodings :
+    SimEq Comb.count.toCombiner (count Val) id (fun n => .int n) (fun n => .int n) ∧
+    SimEq Comb.sum.toCombiner sum Val.toInt (fun i => .int i) (fun i => .int i) ∧
+    SimEq Comb.min.toCombiner (minBy Val.lt) id encOptAcc encOptPanic ∧
+    SimEq Comb.max.toCombiner (maxBy Val.lt) id encOptAcc encOptPanic ∧
+    (∀ k, (Comb.topK k).toCombiner = Combiner.toVal id Val.ofList Val.toList Val.ofList (topKBy Val.le k)) :=
+  ⟨sim_count, sim_sum, sim_min, sim_max, fun _ => rfl⟩
+
+/-- hence their lawfulness is a COROLLARY of Part 2 / Part 4 (for all values, no well-formedness assumption) -/
+theorem val_builtins_lawful :
+    LawfulCombiner Comb.count.toCombiner Eq ∧ LawfulCombiner Comb.sum.toCombiner Eq ∧
+    LawfulCombiner Comb.min.toCombiner Eq ∧ LawfulCombiner Comb.max.toCombiner Eq ∧
+    LawfulCombiner Comb.minT.toCombiner Eq ∧ LawfulCombiner Comb.maxT.toCombiner Eq ∧
+    ∀ k, LawfulCombiner (Comb.topK k).toCombiner Eq :=
+  ⟨sim_count.lawful (count_mergeable Val).toLawfulCombiner,
+   sim_sum.lawful builtins_lawful.2.1,
+   sim_min.lawful (min_any_ord_lawful Val.lt_strictWeak),
+   sim_max.lawful (max_total_ord_lawful Val.lt_strictWeak Val.lt_anti),
+   sim_minT.lawful (min_any_ord_lawful Val.lt_strictWeak),
+   sim_maxT.lawful (max_total_ord_lawful Val.lt_strictWeak Val.lt_anti),
+   fun k => topKVal_lawful k⟩
+
+/-- every merge tree of a `Val`-level built-in computes the encoding of the typed tree: the Part 3 / Part 4 output
+    theorems speak about the pipeline model's combiners too -/
+theorem val_min_tree (tr : MergeTree Val) :
+    ∃ r, Comb.min.toCombiner.finish (tr.eval Comb.min.toCombiner) = encOptPanic r ∧ IsMinOf Val.lt tr.leaves r := by
+  refine ⟨(minBy Val.lt).finish ((tr.map id).eval (minBy Val.lt)), sim_min.finish_eval tr, ?_⟩
+  have := min_is_minimum Val.lt_strictWeak (tr.map id)
+  rw [MergeTree.leaves_map, List.map_id] at this
+  exact this
+
+theorem val_max_tree (tr : MergeTree Val) :
+    ∃ r, Comb.max.toCombiner.finish (tr.eval Comb.max.toCombiner) = encOptPanic r ∧ IsMaxOf Val.lt tr.leaves r := by
+  refine ⟨(maxBy Val.lt).finish ((tr.map id).eval (maxBy Val.lt)), sim_max.finish_eval tr, ?_⟩
+  have := max_is_maximum Val.lt_strictWeak (tr.map id)
+  rw [MergeTree.leaves_map, List.map_id] at this
+  exact this
+
+theorem val_count_tree (tr : MergeTree Val) :
+    Comb.count.toCombiner.finish (tr.eval Comb.count.toCombiner) = .int tr.leaves.length := by
+  rw [sim_count.finish_eval tr, count_spec, MergeTree.leaves_map, List.length_map]
+
+theorem val_sum_tree (tr : MergeTree Val) :
+    Comb.sum.toCombiner.finish (tr.eval Comb.sum.toCombiner) = .int (tr.leaves.map Val.toInt).sum := by
+  rw [sim_sum.finish_eval tr, sum_spec, MergeTree.leaves_map]
+
+/-- the two models of the `HashSet` (first-occurrence order in `Program.lean`, newest-first here) hold the same
+    elements after every merge tree: the pipeline model's `DistinctSet` accumulator is a duplicate-free list of
+    exactly the values seen -/
+theorem val_distinct_tree (tr : MergeTree Val) :
+    ∃ l, tr.eval Comb.distinctSet.toCombiner = Val.ofList l ∧ l.Nodup ∧ ∀ x, x ∈ l ↔ x ∈ tr.leaves := by
+  obtain ⟨l, hl, p⟩ := distinct_rel_eval tr
+  have hs := distinct_acc_spec tr
+  exact ⟨l, hl, p.nodup_iff.mpr hs.1, fun x => p.mem_iff.trans (hs.2 x)⟩
+
+/-! ## Part 7 — KMV on C06's merge trees (pointer to C15's theory) -/
+
+section KMV
+open IB.Sketches
+
+/-- `KMVApproxDistinctCount`: for EVERY merge tree of C06 — leaves built by `add_input` OR by the real
+    `build_from_group`, merged in any grouping, values added after merges — heap and set hold the same ranks and
+    they are THE `k` smallest distinct ranks of the input (C15's `KSmallest`, which determines them uniquely) -/
+theorem kmv_tree_state (k : Nat) (t : MergeTree Nat) :
+    (t.eval (kmvComb k)).heap.Perm (t.eval (kmvComb k)).set ∧ (t.eval (kmvComb k)).k = kmvK k ∧
+      KSmallest (kmvK k) t.leaves (t.eval (kmvComb k)).set :=
+  let h := kmv_mergeTree_inv k t
+  ⟨h.perm, h.hk, h.spec⟩
+
+/-- mergeability: two merge trees whose inputs have the same MEMBERS (any split, order, grouping, duplicates, build
+    mode) keep the same ranks and `finish` to the same answer -/
+theorem kmv_tree_independent (k : Nat) (t₁ t₂ : MergeTree Nat) (hm : ∀ x, x ∈ t₁.leaves ↔ x ∈ t₂.leaves) :
+    (t₁.eval (kmvComb k)).set.Perm (t₂.eval (kmvComb k)).set ∧
+      (kmvComb k).finish (t₁.eval (kmvComb k)) = (kmvComb k).finish (t₂.eval (kmvComb k)) := by
+  have h1 := kmv_mergeTree_inv k t₁
+  have h2 := kmv_mergeTree_inv k t₂
+  have hp := h1.spec.unique h2.spec hm
+  refine ⟨hp, ?_⟩
+  have hheap : heapMax (t₁.eval (kmvComb k)).heap = heapMax (t₂.eval (kmvComb k)).heap :=
+    heapMax_congr (fun x => by rw [h1.perm.mem_iff, h2.perm.mem_iff, hp.mem_iff])
+  show KMV.finish _ = KMV.finish _
+  simp only [KMV.finish, hp.length_eq, h1.hk, h2.hk, hheap]
+
+/-- `build_from_group` IS the `add_input` loop; merging a fresh accumulator (either side) changes no answer -/
+theorem kmv_build_and_fresh (k : Nat) (xs : List Nat) (t : MergeTree Nat) :
+    (kmvComb (α := Nat) k).build xs = (kmvComb k).foldAdd (kmvComb k).create xs ∧
+    (kmvComb k).finish ((kmvComb k).merge (t.eval (kmvComb k)) (kmvComb k).create) = (kmvComb k).finish (t.eval (kmvComb k)) ∧
+    (kmvComb k).finish ((kmvComb k).merge (kmvComb k).create (t.eval (kmvComb k))) = (kmvComb k).finish (t.eval (kmvComb k)) :=
+  ⟨rfl,
+   (kmv_tree_independent k (.node t (.leaf [])) t (fun x => by simp [MergeTree.leaves])).2,
+   (kmv_tree_independent k (.node (.leaf []) t) t (fun x => by simp [MergeTree.leaves])).2⟩
+
+end KMV
+
 /-! ## Non-vacuity and witnesses (tests, not theorems) -/
 
 /-- the hypotheses of `mergeTree_split_any_order` on a concrete tree: 3 parts (one empty), leaves in the
@@ -292,5 +621,25 @@ example : (topK 0).finish ((MergeTree.node (.leaf [1]) (.built [2])).eval (topK 
 
 /-- witness: Min on no values = `none` (the real `finish` panics), also through a merge -/
 example : minC.finish ((MergeTree.node (.leaf []) (.built [])).eval minC) = none := by decide
+
+/-- `ltKey` (the harness's `Tagged`) satisfies `StrictWeakB` but not antisymmetry: two `Equal`, different values -/
+example : StrictWeakB ltKey ∧ Equiv ltKey ((1 : Int), 0) (1, 1) ∧ ((1 : Int), 0) ≠ ((1, 1) : Tagged) :=
+  ⟨ltKey_strictWeak, ⟨by decide, by decide⟩, by decide⟩
+
+/-- witness of the tie rules: `Max::build_from_group` returns the LAST, `add_input` / `merge` keep the FIRST -/
+example : (maxBy ltKey).build [((1 : Int), 0), (1, 1)] = some (1, 1) ∧
+    (maxBy ltKey).foldAdd none [((1 : Int), 0), (1, 1)] = some (1, 0) ∧
+    (maxBy ltKey).merge (some ((1 : Int), 0)) (some (1, 1)) = some (1, 0) ∧
+    (minBy ltKey).build [((1 : Int), 0), (1, 1)] = some (1, 0) := by decide
+
+/-- `NumHom … classOps cls` is satisfiable: the class monoid itself, classified by the identity -/
+example : NumHom classOps classOps id := ⟨rfl, rfl, fun _ _ => rfl, fun _ _ _ => rfl⟩
+
+/-- witness of `sumClass`: `+inf` and `-inf` anywhere ⇒ NaN; `+inf` alone ⇒ `+inf` -/
+example : sumClass [.fin, .pinf, .fin, .ninf] = .nan ∧ sumClass [.fin, .pinf] = .pinf ∧ sumClass [] = .fin := by decide
+
+/-- `maxF64_nan_rule` / `maxF64_inf_rule`: the hypotheses are satisfiable (`0x7FF8…0` is a positive NaN) -/
+example : isPosNaN 0x7FF8000000000000 ∧ ¬ isPosNaN posInfBits := by
+  unfold isPosNaN two63 posInfBits; decide
 
 end IB.Combiners
